@@ -66,6 +66,15 @@ func genC02(level int) []*CacheScen {
 		add(&CacheScen{Rel: RelSS, NKeys: 2, Init: []int{IExpired, IAbsent}, Table: TPlain, Threads: [][]CIn{{con(cGet, 0), con(cSet, 0)}, {cDelExp}}})
 		add(&CacheScen{Rel: RelSS, NKeys: 2, Init: []int{IExpired, IAbsent}, Table: TPlain, Threads: [][]CIn{{con(cSet, 0), con(cGet, 0)}, {cDelExp}}})
 		add(&CacheScen{Rel: RelSS, NKeys: 2, Init: []int{IExpired, IAbsent}, Table: TPlain, Threads: [][]CIn{{con(cSet, 0)}, {con(cGet, 0), con(cGet, 0)}}})
+		// the default expiration is changed while stores that use it run: every entry gets exactly the
+		// default in force at some moment of its call (the quiescent epilogue reads the stored instants)
+		for _, sd := range []CIn{{Op: CSetDefaultExpiration, D: durNoExp}, {Op: CSetDefaultExpiration, D: 70}} {
+			for _, st := range []CIn{{Op: CSetDefault}, {Op: CSet, D: durDef}, {Op: CGetOrSet, D: durDef}, {Op: CGetAndSet, D: durDef}, {Op: CGetAndRefresh, D: durDef}, {Op: CGetOrCompute, D: durDef}, {Op: CCompute, Fn: FnSet, D: durDef}} {
+				for _, ini := range []int{IAbsent, ILive} {
+					add(&CacheScen{Rel: RelSS, NKeys: 2, Init: []int{ini, IAbsent}, Table: TPlain, Def: 50, Threads: [][]CIn{{sd}, {con(st, 0)}}})
+				}
+			}
+		}
 		// the table grows (one caller inserts into a full chain above the load factor) while another call runs
 		for _, b := range []CIn{cSet, cGoS, cDelete, cGet, cDelExp} {
 			if level == 0 && tw == 1 && b.Op == CDeleteExpired {
